@@ -31,17 +31,18 @@ DB = {"BUint": 64, "BInt": 64, "BUintD32": 32, "BIntD32": 32, "BUintD16": 16, "B
 
 
 def witness_obligations(repo):
-    env = dict(os.environ, CARGO_NET_OFFLINE="true", VERIF_REPO=repo or build.REPO)
+    wdir = os.path.join(VERIF, "witness") if not repo else os.path.join(build.CACHE, "witness")
+    env = dict(os.environ, CARGO_NET_OFFLINE="true", VERIF_REPO=repo or build.REPO, VERIF_WITNESS_DIR=wdir)
     subprocess.run(["python3", os.path.join(VERIF, "tools", "gen_witness.py")], env=env, check=True, stdout=subprocess.DEVNULL)
     lock = os.path.join(repo or build.REPO, "Cargo.lock")
     if os.path.exists(lock):
         import shutil
-        shutil.copy(lock, os.path.join(VERIF, "witness", "Cargo.lock"))
-    env["CARGO_TARGET_DIR"] = os.path.join(VERIF, ".cache", "witness-target")
+        shutil.copy(lock, os.path.join(wdir, "Cargo.lock"))
+    env["CARGO_TARGET_DIR"] = os.path.join(build.CACHE, "witness-target")
     env.pop("RUSTFLAGS", None)
-    r = subprocess.run(["cargo", "check", "--offline", "--message-format", "short"], cwd=os.path.join(VERIF, "witness"), env=env,
+    r = subprocess.run(["cargo", "check", "--offline", "--message-format", "short"], cwd=wdir, env=env,
                        stdout=subprocess.PIPE, stderr=subprocess.STDOUT, text=True)
-    meta = json.load(open(os.path.join(VERIF, "witness", "obligations.json")))
+    meta = json.load(open(os.path.join(wdir, "obligations.json")))
     total = meta["const_assertions"] + meta["trait_bounds"]
     errs = [l for l in r.stdout.splitlines() if re.match(r"^src/lib\.rs:\d+:\d+: error", l)]
     bnum_errs = [l for l in r.stdout.splitlines() if re.search(r"^\S*src/\S+\.rs:\d+:\d+: error", l) and not l.startswith("src/lib.rs")]
